@@ -262,8 +262,14 @@ def run_ping_reply_case(case, out):
 
 
 def reply_records():
+    import copy
     send = {r.name for r in E.SEND}
-    return [r for r in E.RECV if r.route == "reply" and r.request in send and r.module != "axolotl"]
+    recs = [r for r in E.RECV if r.route == "reply" and r.request in send and r.module != "axolotl"]
+    # a sync result also arrives as the answer to the application's sync request (the contacts layer registers that request);
+    # the catalogue lists it as unsolicited because it goes up without a request as well
+    sync = copy.copy(E.by_name("ResultSyncIqProtocolEntity"))
+    sync.route, sync.request = "reply", "GetSyncIqProtocolEntity"
+    return recs + ([sync] if sync.request in send else [])
 
 
 def run_reply_case(case, out):
@@ -302,6 +308,11 @@ def run_reply_case(case, out):
                 rig.inject(T.to_node(tree))
             except Exception as e:
                 out.fail("up", "up:reply:%s:raises:%s" % (rec.name, type(e).__name__), {"error": repr(e)[:300], "config": cfg, "request": req.name}, case=single)
+                return out
+            again = [n for n in rig.bottom.sent if n.tag == "iq" and n["id"] == ent.getId()]
+            if len(again) != 1:
+                # one entity sent, one stanza out: the reply arriving does not make the request leave the stack once more
+                out.fail("down", "down:%s:sent_%d_times_once_the_reply_arrived" % (req.name, len(again)), {"config": cfg, "reply": rec.name}, case=single)
                 return out
             got = rig.top.got[before:]
             if len(got) != 1:
